@@ -740,6 +740,16 @@ func climb(r *mon.Rec, f family, steps int) {
 	r.Max("climb_best_alloc_per_byte_x100."+f.name, int64(fit(bc)*100))
 }
 
+func init() {
+	// every family is judged against constants measured for it (bounds.go); the global constants are for inputs found
+	// by the hill-climb only
+	for _, f := range families {
+		if _, ok := famBounds[f.name]; !ok {
+			panic("harness: family " + f.name + " has no entry in bounds.go")
+		}
+	}
+}
+
 func TestCheck(t *testing.T) {
 	r := mon.New("C09")
 	defer r.Flush()
